@@ -40,6 +40,26 @@ Theorem C09_code_sound : forall (lower : str -> str) cfg p now rq c rr vr s,
 Proof. exact code_sound. Qed.
 Print Assumptions C09_code_sound.
 
+(* Sub-second instants. Deadlines are whole seconds; a request made strictly inside second k
+   (at k*1000 + ms milliseconds, 0 < ms < 1000) sees a deadline t as passed exactly when the model
+   at now = k + 1 does: a session whose lifetime deadline is the START of the current second is
+   already expired, whatever the milliseconds. (All theorems above and below quantify over every
+   [now], so they hold at these instants.) *)
+Theorem C09_subsecond_instant : forall t k ms,
+  0 < ms < 1000 -> (t * 1000 <? k * 1000 + ms) = is_expired (k + 1) t.
+Proof. exact subsecond_instant. Qed.
+Print Assumptions C09_subsecond_instant.
+
+Theorem C09_expired_within_its_second_no_code : forall (lower : str -> str) cfg p k rq s0 rr vr,
+  s_lifetime s0 <= k ->
+  r_code (sign_in_route lower cfg p (k + 1) rq (CkSealed KCookie s0) rr vr) = None.
+Proof.
+  intros lower cfg p k rq s0 rr vr H.
+  destruct (r_code (sign_in_route lower cfg p (k + 1) rq (CkSealed KCookie s0) rr vr)) as [s|] eqn:E; [|reflexivity].
+  destruct (code_sound lower _ _ _ _ _ _ _ _ E) as [_ [s1 [Hc [Hl _]]]]. inversion Hc; subst. lia.
+Qed.
+Print Assumptions C09_expired_within_its_second_no_code.
+
 (* "passes the configured rule" is the documented rule: exact folded address when addresses
    are configured, whole folded domain otherwise (guard: no '@' inside a configured domain) *)
 Theorem C09_rule_is_documented : forall (lower : str -> str) cfg email,
